@@ -277,7 +277,9 @@ def undefined_cases(ctx, dec, B, D):
             d2 = Decoder(tables_root_dir=scratch)
             for sid in (363001, 363002):
                 for comp in (False, True):
-                    ids = [1001, 1015, 1015]   # long enough that the undefined member is reached
+                    # data are well-formed for every descriptor that precedes the undefined member
+                    # (001001 [001001] ...), so nothing else can fail before it is reached
+                    ids = [1001, 1001, 1001, 1015]
                     msg = R.build_message(ids, B, D, pol, 2, comp, 4)
                     fr = R.parse_frame(msg.bytes)
                     st = fr.sections[3][0] + 7 + 2
